@@ -174,7 +174,8 @@ class Kernel:
             k = (frame.f_code.co_filename, frame.f_lineno)
             self.site_counts[k] = self.site_counts.get(k, 0) + 1
         if self.hang_limit is not None and self.n > self.hang_limit:
-            self.hang_limit = None  # raise once
+            # cut this task off; any other task still looping gets the same treatment a little later
+            self.hang_limit = self.n + 200_000
             raise StepLimitExceeded(f"more than {self.n - 1} traced steps")
         if self.cap_hit:
             return
